@@ -48,6 +48,13 @@ def gen_frame(rng, fmt, enc):
                 vals = [rng.choice(look + [""]) for _ in range(n)]
             if all(v == "" for v in vals) and fmt == "csv":
                 vals[0] = "a"
+            if fmt == "csv" and n >= 2 and rng.random() < 0.2:
+                # text that other tools read as "no value" (a country code NA, the word null): in a column that holds
+                # ordinary text as well it is text, and comes back as text
+                vals[0] = "a"
+                for i in range(1, n):
+                    if rng.random() < 0.7:
+                        vals[i] = rng.choice(["NA", "null", "N/A", "nan", "NULL", "#N/A", "NaN", "n/a"])
         elif kind == "float":
             vals = [rng.choice([1.5, -2.25, 0.1, 1e300, "nan", 3.0, 1e-7]) for _ in range(n)]
             if fmt == "csv" and all(v == "nan" for v in vals):
@@ -132,6 +139,10 @@ def gen_cases(ctx):
                     a = ["two\nlines", "plain"] if first_row_break else ["plain", "two\nlines"]
                     cases.append({"op": "file", "format": "csv", "suffix": suf, "encoding": enc, "sep": rng.choice([",", ";"]), "header": header,
                                   "frame": {"n": 2, "cols": [{"name": "a", "kind": "str", "vals": a}, {"name": "b", "kind": "int", "vals": [1, 2]}, {"name": "c", "kind": "float", "vals": [0.5, 1.5]}]}})
+    # CSV: a text column that holds ordinary text next to spellings other tools read as "no value" (ISO country code NA)
+    for header in (True, False):
+        cases.append({"op": "file", "format": "csv", "suffix": "", "encoding": "utf-8", "sep": ",", "header": header,
+                      "frame": {"n": 5, "cols": [{"name": "a", "kind": "str", "vals": ["FI", "NA", "null", "N/A", "nan"]}, {"name": "b", "kind": "int", "vals": [1, 2, 3, 4, 5]}]}})
     # frames in which EVERY column is constant (a table of defaults, a one-level extract): as many rows come back as went in
     for fmt in ("npz", "pickle", "parquet", "csv", "json"):
         for nrow in (2, 5):
